@@ -217,6 +217,7 @@ Proof.
     + intros f Hf. specialize (Ip _ Hf). lia.
   - (* health-check verdict *) unfold step in H. injection H as <-.
     destruct I as [Ic If Id Ip Io Ia Icap]. constructor; sset; auto.
+  - (* the client goes away: nothing moves *) open_thread H s t Hn; injection H as <-; exact I.
 Qed.
 
 Lemma run_inv c pol ls : forall s s', Inv c s -> run c pol s ls = Some s' -> Inv c s'.
@@ -451,6 +452,7 @@ Proof.
     + exists f. auto.
   - destruct (0 <=? d); [|discriminate]. injection H as <-. exists f; auto.
   - injection H as <-. exists f; auto.
+  - destruct (nth_error (threads s) t) as [[| | | | | |]|]; try discriminate; injection H as <-; exists f; auto.
 Qed.
 
 Lemma run_logged c pol ls : forall s s' h a, run c pol s ls = Some s' -> logged s h a -> logged s' h a.
@@ -746,6 +748,7 @@ Proof.
     left. exact Ev.
   - unfold step in H. destruct (0 <=? d); [|discriminate]. injection H as <-. left. exact Ev.
   - unfold step in H. injection H as <-. left. exact Ev.
+  - open_thread H s t0 Hn; injection H as <-; left; exact Ev.
 Qed.
 
 Lemma run_evid c pol t k h : forall ls s s',
@@ -819,6 +822,7 @@ Proof.
   - destruct (0 <=? d); [|discriminate]. injection H as <-. exact U.
   - injection H as <-. simpl. rewrite setb_spec. destruct (Nat.eqb h h0) eqn:E; [|exact U].
     simpl in Hl. destruct b; [reflexivity|]. rewrite E in Hl. discriminate.
+  - destruct (nth_error (threads s) t) as [[| | | | | |]|]; try discriminate; injection H as <-; exact U.
 Qed.
 
 Lemma run_unhealthy_stays c pol h : forall ls s s',
@@ -1038,11 +1042,13 @@ Proof.
   - exfalso. exact (Hw d eq_refl).
   - destruct (step c pol s (LHealth h b)) as [s1|] eqn:E; [|discriminate]. injection H as <- _.
     exact (quick_step _ _ _ _ _ E eq_refl).
+  - destruct (step c pol s (LCancel t)) as [s1|] eqn:E; [|discriminate]. injection H as <- _.
+    exact (quick_step _ _ _ _ _ E eq_refl).
 Qed.
 
 Lemma hexec_run c pol ps s h s' e : hexec c pol ps s h = Some (s', e) -> exists ls, run c pol s ls = Some s'.
 Proof.
-  intros H. destruct h as [t|t|t|t again|t|t o again|d|h b]; try (match type of H with hexec _ _ _ _ ?hh = _ => assert (Hw : forall d0, hh <> HWait d0) by (intros ?; discriminate) end;
+  intros H. destruct h as [t|t|t|t again|t|t o again|d|h b|t]; try (match type of H with hexec _ _ _ _ ?hh = _ => assert (Hw : forall d0, hh <> HWait d0) by (intros ?; discriminate) end;
        destruct (hexec_quick _ _ _ _ _ _ _ Hw H) as (ls & Hl & _); exists ls; exact Hl).
   cbn [hexec] in H. destruct (step c pol s (LTick d)) as [s1|] eqn:E; [|discriminate].
   destruct (fire_due c pol s1 (length (flog s1))) as [s2|] eqn:E2; [|discriminate]. injection H as <- _.
@@ -1077,6 +1083,7 @@ Proof.
     destruct (asleep g && (f_at g + c_fail_timeout c <=? now s)); [|discriminate]. injection H as <-.
     intros f Hf Hs. sset. apply in_set_nth in Hf as [->|Hf]; [discriminate Hs | exact (Pr f Hf Hs)].
   - injection H as <-. exact Pr.
+  - destruct (nth_error (threads s) t) as [[| | | | | |]|]; try discriminate; injection H as <-; exact Pr.
 Qed.
 
 Lemma quick_prompt c pol s s' : quick_run c pol s s' -> prompt c s -> prompt c s'.
@@ -1119,7 +1126,7 @@ Qed.
 
 Lemma hexec_prompt c pol ps s h s' e : prompt c s -> hexec c pol ps s h = Some (s', e) -> prompt c s'.
 Proof.
-  intros Pr H. destruct h as [t|t|t|t again|t|t o again|d|h b]; try (match type of H with hexec _ _ _ _ ?hh = _ => assert (Hw : forall d0, hh <> HWait d0) by (intros ?; discriminate) end;
+  intros Pr H. destruct h as [t|t|t|t again|t|t o again|d|h b|t]; try (match type of H with hexec _ _ _ _ ?hh = _ => assert (Hw : forall d0, hh <> HWait d0) by (intros ?; discriminate) end;
        exact (quick_prompt _ _ _ _ (hexec_quick _ _ _ _ _ _ _ Hw H) Pr)).
   cbn [hexec] in H. destruct (step c pol s (LTick d)) as [s1|] eqn:E; [|discriminate].
   destruct (fire_due c pol s1 (length (flog s1))) as [s2|] eqn:E2; [|discriminate]. injection H as <- _.
@@ -1279,3 +1286,57 @@ Lemma prompt_is_late_by_zero c s : prompt c s <-> late_by c 0 s.
 Proof.
   unfold prompt, late_by. split; intros H f Hf Hs; specialize (H f Hf Hs); lia.
 Qed.
+
+(* ---------- the client goes away (context cancelled) at any point of a request's life ---------- *)
+Definition is_cancel (l : label) : bool := match l with LCancel _ => true | _ => false end.
+
+(* the disconnect itself moves no counter and no request *)
+Lemma cancel_moves_nothing c pol s t s' : step c pol s (LCancel t) = Some s' -> s' = s.
+Proof.
+  intros H. unfold step in H.
+  destruct (nth_error (threads s) t) as [[| | | | | |]|]; try discriminate; injection H as <-; reflexivity.
+Qed.
+
+(* it can happen wherever a request that has not returned is *)
+Lemma cancel_enabled_while_alive c pol s t p :
+  nth_error (threads s) t = Some p -> is_done p = false -> step c pol s (LCancel t) = Some s.
+Proof. intros Hn Hd. unfold step. rewrite Hn. destruct p; try reflexivity. discriminate Hd. Qed.
+
+(* erasing the disconnects from ANY schedule gives a schedule with the same result: whether and when
+   clients go away changes no counter, no failure record and no request's path *)
+Lemma run_without_cancels c pol ls : forall s s',
+  run c pol s ls = Some s' -> run c pol s (filter (fun l => negb (is_cancel l)) ls) = Some s'.
+Proof.
+  induction ls as [|l ls IH]; intros s s' H; simpl in H; [exact H|].
+  destruct (step c pol s l) as [s1|] eqn:E; [|discriminate].
+  destruct l; cbn [filter is_cancel negb run]; try (rewrite E; exact (IH _ _ H)).
+  rewrite (cancel_moves_nothing _ _ _ _ _ E) in H. exact (IH _ _ H).
+Qed.
+
+(* a request whose client is already gone when its attempt begins (it holds a host that is not full)
+   still takes the slot and enters the forward call; when that call comes back with context.Canceled
+   the slot is given back, the request ends with 499 and no failure is recorded *)
+Lemma gone_request_holds_and_releases c pol s t h s1 s2 s3 :
+  nth_error (threads s) t = Some (Selected (Some h)) -> full c s h = false ->
+  step c pol s (LCancel t) = Some s1 -> acquire c pol s1 t = Some s2 ->
+  step c pol s2 (LFinish t OCancel) = Some s3 ->
+  nth_error (threads s2) t = Some (Forwarding h) /\ conns s2 h = conns s h + 1 /\
+  nth_error (threads s3) t = Some (Done 499) /\ conns s3 h = conns s h /\
+  fails s3 = fails s2 /\ flog s3 = flog s2.
+Proof.
+  intros Hn F Hc Ha Hf. rewrite (cancel_moves_nothing _ _ _ _ _ Hc) in Ha.
+  destruct (begin_forwards_unless_full _ _ _ _ _ _ Hn Ha) as [Hfw _].
+  destruct (Hfw F) as [Hn2 Hc2]. unfold step in Hf. rewrite Hn2 in Hf. injection Hf as <-. sset.
+  repeat split; auto.
+  - exact (nth_error_set_nth _ _ _ _ Hn2).
+  - rewrite bump_same. lia.
+Qed.
+
+(* the schedule of C14-m7: request 0 holds the only slot, request 1 finds the host full and waits in
+   the retry loop, its client goes away, request 0 finishes, request 1 selects the host, takes the
+   slot, is forwarded, comes back cancelled *)
+Definition sel_nil (t : nat) : list label :=
+  [LSelStart t; LSelRead t 0%nat; LSelRead t 0%nat; LSelRead t 0%nat; LSelEnd t None 0%N].
+Definition sched_gone_waiter : list label :=
+  [LSpawn; LSpawn] ++ sel0 0 ++ [LLoad 0; LCas 0] ++ sel_nil 1 ++ [LNoHost 1 true; LCancel 1; LFinish 0 OSuccess] ++
+  sel0 1 ++ [LLoad 1; LCas 1].
